@@ -216,8 +216,6 @@ Qed.
 
 (* ---------- positions ---------- *)
 
-Definition z_ok (c : coord) : Prop := cz c <> Some 0.
-
 Lemma parse_pos_position : forall half c,
   parse_pos half (position c) = Ok (mkc (lon c) (lat c) (truthy_z (cz c))).
 Proof.
@@ -239,8 +237,6 @@ Proof.
   rewrite (H a (or_introl eq_refl)). rewrite IH; [reflexivity|].
   intros b Hb. apply H. right. exact Hb.
 Qed.
-
-Definition ring_zok (r : ring) : Prop := Forall z_ok r.
 
 Lemma parse_ring_jring : forall half r, ring_zok r -> parse_ring half (jring r) = Ok r.
 Proof.
@@ -270,17 +266,6 @@ Qed.
 
 (* ---------- well-formed (constructed) geometries ---------- *)
 
-(* what GeoPolygon.__init__ establishes for an outline (RingP.norm_ring_spec) *)
-Definition ring_wf (half : Z) (r : ring) : Prop :=
-  (2 <= length r)%nat /\ closedb r = true /\ is_ccw half r = true.
-
-(* a hole that GeoPolygon.from_geojson can turn back: strictly oriented *)
-Definition hole_wf (half : Z) (h : ring) : Prop := ring_wf half h /\ is_ccw half (rev h) = false.
-
-Definition polygon_wf (half : Z) (strict : bool) (p : polygon) : Prop :=
-  ring_wf half (outline p) /\ ring_zok (outline p) /\
-  Forall (fun h => (if strict then hole_wf half h else ring_wf half h) /\ ring_zok h) (pholes p).
-
 Definition kind_of (g : geom) : option skind :=
   match g with
   | GPoint _ => Some KPoint | GLine _ => Some KLine | GPoly _ => Some KPoly
@@ -298,9 +283,6 @@ Definition geom_wf (half : Z) (g : geom) : Prop :=
   | GMPoly ps => Forall (polygon_wf half false) ps
   | _ => False
   end.
-
-Lemma ring_wf_nonempty : forall half r, ring_wf half r -> r <> [].
-Proof. intros half [|a t] (L & _); cbn in L; [lia|discriminate]. Qed.
 
 Lemma ctor_ring_wf : forall half r, ring_wf half r -> ctor_ring half r = Ok r.
 Proof.
@@ -643,59 +625,6 @@ Proof.
   change (forallb (fun kv => json_pure (snd kv)) ?d) with (dict_pure d).
   destruct ups as [u|]; cbn [ups_dict] in Hu; apply dmerge_pure; try exact Hu; try reflexivity;
     apply sanitize_dict_pure.
-Qed.
-
-(* ---------- the constructor establishes well-formedness ---------- *)
-
-Lemma norm_ring_zok : forall half h r, ring_zok r -> ring_zok (norm_ring half h r).
-Proof.
-  intros half h r H. unfold ring_zok in *. rewrite Forall_forall in *.
-  intros c Hc. apply H. eapply norm_ring_In. exact Hc.
-Qed.
-
-Lemma mk_ring_wf : forall half r, span_ok half r -> (2 <= length r)%nat ->
-  ring_wf half (norm_ring half false r).
-Proof.
-  intros half r H L. destruct (norm_ring_spec half false r H) as (C & _ & Ln & _ & O).
-  repeat split; [lia|exact C|exact O].
-Qed.
-
-Lemma mk_hole_wf : forall half r, span_ok half r -> (2 <= length r)%nat ->
-  area2 (close_ring r) <> 0 -> hole_wf half (mk_hole half r).
-Proof.
-  intros half r H L A. split; [apply mk_ring_wf; assumption|]. unfold mk_hole.
-  destruct (norm_ring_spec half false r H) as (C & Sp & _ & A0 & _).
-  apply strict_ccw_rev; [exact Sp|exact C|].
-  destruct (norm_ring_area half false r) as [E|E]; lia.
-Qed.
-
-(* every GeoPolygon built from in-span vertex lists with non-degenerate holes is well-formed *)
-Lemma constructed_polygon_wf : forall half o hs,
-  span_ok half o -> (2 <= length o)%nat -> ring_zok o ->
-  Forall (fun h => span_ok half h /\ (2 <= length h)%nat /\ ring_zok h /\ area2 (close_ring h) <> 0) hs ->
-  polygon_wf half true (mk_polygon half o (map (mk_hole half) hs)).
-Proof.
-  intros half o hs So Lo Zo Hh. unfold polygon_wf, mk_polygon. cbn [outline pholes].
-  repeat split; try (apply mk_ring_wf; assumption); [apply norm_ring_zok; exact Zo|].
-  rewrite Forall_forall in *. intros h Hin. apply in_map_iff in Hin as (r & <- & Hr).
-  destruct (Hh r Hr) as (S & L & Z & A). split; [apply mk_hole_wf; assumption|].
-  apply norm_ring_zok. exact Z.
-Qed.
-
-Lemma hole_wf_ring_wf : forall half h, hole_wf half h -> ring_wf half h.
-Proof. intros half h [H _]. exact H. Qed.
-
-(* members of a MultiGeoPolygon need no area condition on their holes *)
-Lemma constructed_member_wf : forall half o hs,
-  span_ok half o -> (2 <= length o)%nat -> ring_zok o ->
-  Forall (fun h => span_ok half h /\ (2 <= length h)%nat /\ ring_zok h) hs ->
-  polygon_wf half false (mk_polygon half o (map (mk_hole half) hs)).
-Proof.
-  intros half o hs So Lo Zo Hh. unfold polygon_wf, mk_polygon. cbn [outline pholes].
-  repeat split; try (apply mk_ring_wf; assumption); [apply norm_ring_zok; exact Zo|].
-  rewrite Forall_forall in *. intros h Hin. apply in_map_iff in Hin as (r & <- & Hr).
-  destruct (Hh r Hr) as (S & L & Z). split; [apply mk_ring_wf; assumption|].
-  apply norm_ring_zok. exact Z.
 Qed.
 
 (* ---------- closed rings ---------- *)
